@@ -221,7 +221,7 @@ def _one(g, m, sd, S, t, st):
 
 
 def run_case(h):
-    if "cmd" in h:
+    if "cmd" in h or "cmdseq" in h:
         return cs.run_cmd_case(h)
     if "e2e" in h:
         return _e2e(h)
